@@ -377,6 +377,9 @@ def splice_fn(fd, files, asm, canary=False, record=True):
             text = rewrite_guard(text, rw, item, asm)
             rewritten_lines += 1
             continue
+        if '\n' not in rw['old']:
+            # single-line rewrites are matched modulo surrounding indentation
+            rw = dict(rw, old=rw['old'].strip(), new=rw['new'].strip())
         cnt = text.count(rw['old'])
         if cnt != rw['count'] or cnt == 0:
             raise LostAnchor("rewrite anchor in %s occurs %d times, expected %d: %r"
